@@ -32,7 +32,7 @@ def run(ctx):
         nd = rng.choice([0, 0, 0, 2])
         equal = rng.random() < 0.6
         n0 = rng.randint(2, 6)
-        kind = rng.choice(["alpha", "dyadic", "gauss"])
+        kind = rng.choice(["alpha", "dyadic", "gauss", "small", "small"])
         centers = [gen.series_nd(rng, n0, nd, kind) if nd else gen.series(rng, n0, kind) for _ in range(max(1, k))]
         ss = []
         for i in range(n):
